@@ -24,6 +24,13 @@ def jobs(tier):
     for f in (['temp', 'run', 'tag A', 'include f'] if quick else [n for n, _ in menu('small')]):
         js.append({'name': '2 lines first=%s, both pre-states 2 bytes' % f, 'harness': (H, 'h_hermetic'),
                    'params': {'nlines': 2, 'menu_name': 'small', 'fixed': [f], 'pre_out_len': 2, 'pre_temp_len': 2}})
+    # the only-if-needed option is an option of build: from any pre-state (in particular: the fresh output followed by stale bytes,
+    # the fresh output cut short) it must leave what a build from a clean tree leaves
+    for sc in (['text'], ['write'], ['include f'], ['run'], ['text', 'text']):
+        for pl in ((2, 3, 4, 5) if quick else (1, 2, 3, 4, 5, 6, 7)):
+            js.append({'name': '--needed pre_out=%d %s' % (pl, '/'.join(sc)), 'harness': (H, 'h_hermetic'),
+                       'params': {'nlines': len(sc), 'menu_name': 'small', 'fixed': sc, 'pre_out_len': pl, 'pre_temp_len': None,
+                                  'mode_a': 'InMemoryBuild', 'mode_b': 'Build', 'inc_len': 1}})
     # an include of X with a stale / truncated X on disk: X is rebuilt from X's .txtpp source first (dependency is reported)
     for shape in range(len(DEP_SHAPES)):
         for kind in ('include', 'after'):
@@ -66,12 +73,13 @@ def replay(native, v):
     if d['op'] == 'tree':
         return replay_tree(v)
     model = d['model']
-    a = ppreplay.run_native_history(d, model, [((), True)])[0]
-    d2 = dict(d, pre_out=None, pre_temp=None)
-    b = ppreplay.run_native_history(d2, model, [((), True)])[0]
+    a = ppreplay.run_native_history(d, model, [(MODE_ARGS[d.get('mode_a', 'Build')], True)])[0]
+    d2 = dict(d, pre_out=None, pre_temp=None) if d.get('clean_b', True) else d
+    b = ppreplay.run_native_history(d2, model, [(MODE_ARGS[d.get('mode_b', 'Build')], True)])[0]
     detail = {'source': repr(ppreplay.conc(d['source'], model)), 'included f': repr(ppreplay.conc(d['inc'], model)),
               'pre_out': repr(ppreplay.conc(d['pre_out'], model)) if d.get('pre_out') is not None else None,
               'pre_temp': repr(ppreplay.conc(d['pre_temp'], model)) if d.get('pre_temp') is not None else None,
+              'mode_a': d.get('mode_a', 'Build'), 'mode_b': d.get('mode_b', 'Build'),
               'runs': [{'rc': r['rc'], 'output': repr(r['output']), 'temp': repr(r['temp'])} for r in (a, b)]}
     bad = (a['rc'] == 0) != (b['rc'] == 0) or (a['rc'] == 0 and (a['output'] != b['output'] or a['temp'] != b['temp']))
     return bad, detail
